@@ -169,7 +169,8 @@ class Contract:
     def __init__(self, func, requires=(), ensures=(), loops=None, float_mode="R", bind=None,
                  ghost=None, lemmas=(), modifies=None, defs=(), name=None, checks=("bounds", "overflow", "narrow", "divzero"),
                  assume_types=True, note="", nan_aware=False, asserts=None, py_mode=False, inputs=None,
-                 call_facts=None, count_calls=()):
+                 call_facts=None, count_calls=(), rtc_prefs=(), rtc_scope=0):
+        self.rtc_prefs, self.rtc_scope = list(rtc_prefs), rtc_scope   # run-time contract check: soft input preferences
         self.count_calls = tuple(count_calls)   # ghost counters: number of executed calls of these functions
         self.py_mode = py_mode          # Python glue: unknown expressions are opaque instead of fatal
         self.inputs = inputs or {}      # py_mode: free variables of the region -> "int" | "float" | "obj"
@@ -2431,6 +2432,8 @@ def _expand(e, dom, cache):
     key = e.get_id()
     if key in cache:
         return cache[key]
+    # AST ids are recycled once a term is freed: keep every key term alive for the lifetime of the cache
+    cache.setdefault("__keep__", []).append(e)
     if z3.is_quantifier(e):
         nv = e.num_vars()
         body = e.body()
